@@ -1,2 +1,9 @@
 import NipyVerif.Model.C13
-def main : IO Unit := NipyVerif.driverLoop NipyVerif.C13.run
+import NipyVerif.Model.C13B
+import NipyVerif.Model.C13S
+import NipyVerif.Model.C13K
+def main : IO Unit := NipyVerif.driverLoop (fun toks => match toks with
+  | "B" :: rest => NipyVerif.C13.runB rest
+  | "S" :: rest => NipyVerif.C13.runS rest
+  | "K" :: rest => NipyVerif.C13.runK rest
+  | _ => NipyVerif.C13.run toks)
